@@ -3,9 +3,9 @@
 cd /verif
 for d in seeded/*/; do
   s=$(basename $d)
-  case $s in C07-*) continue;; esac
+  if grep -q '"status": "obsolete' $d/meta.json; then echo "$s obsolete"; continue; fi
   if git -C /repo apply --check /verif/$d/patch.diff 2>/dev/null; then
-    python3 harness/seedtool.py eval $s 2>&1 | tail -1 | cut -c1-160
+    echo "$s $(python3 harness/seedtool.py eval $s ${s:0:3} 2>&1 | tail -1 | cut -c1-160)"
   else
     echo "$s PATCH DOES NOT APPLY"
   fi
